@@ -146,6 +146,11 @@ func (r *Router) WithOptions(options ...func(*Router)) {
 	for _, opt := range options {
 		opt(r)
 	}
+
+	// init route cache container. Notice: it must exist before any lookup, also when no route is added.
+	if r.enableCaching {
+		r.cachedRoutes = NewCachedRoutes(int(r.maxNumCaches))
+	}
 }
 
 /*************************************************************
